@@ -375,6 +375,8 @@ where
             let cb = wasm_bindgen::closure::Closure::wrap(
                 on_hydrate as Box<dyn Fn()>,
             );
+            #[cfg(leptos_verif)]
+            let el = wasm_bindgen::JsValue::NULL;
             _ = js_sys::Reflect::set(
                 &el,
                 &wasm_bindgen::JsValue::from_str("$$on_hydrate"),
